@@ -258,6 +258,9 @@ func (p *PX) componentOf(whole *Term, i int, fr *pxFrame, st *pxState) *Term {
 		if i >= 0 && i < len(whole.Args) && !strings.HasPrefix(whole.Args[i].key, "zero:") {
 			return whole.Args[i]
 		}
+	case "array":
+		// a local array of parts loaded as a whole (pxarray.go)
+		return arrayComponent(whole, i)
 	}
 	return nil
 }
